@@ -46,7 +46,26 @@ def _prop(name, dims, ref, result="scalar", power=1, **kw):
 
 
 def _meth(name, dims, args, ref, result="scalar", power=1, **kw):
-    return _reg(Op(name, dims, args, result, (lambda n: lambda v, *a: getattr(v, n)(*a))(name), ref, power, **kw))
+    op = _reg(Op(name, dims, args, result, (lambda n: lambda v, *a: getattr(v, n)(*a))(name), ref, power, **kw))
+    op.positional_call = op.call  # still `op.call` later <=> the call passes its arguments positionally, in order
+    return op
+
+
+def keyword_call(op, v, args):
+    """the same public call with every argument passed by keyword (parameter names from the live signature);
+    None when the catalogue's call is not the plain positional one"""
+    import inspect
+
+    if getattr(op, "positional_call", None) is not op.call or not args:
+        return None
+    meth = getattr(type(v), op.name, None)
+    if meth is None:
+        return None
+    params = [p.name for p in list(inspect.signature(meth).parameters.values())[1:]
+              if p.kind in (p.POSITIONAL_OR_KEYWORD, p.KEYWORD_ONLY)]
+    if len(params) < len(args):
+        return None
+    return lambda: getattr(v, op.name)(**dict(zip(params, args)))
 
 
 same = lambda d: (d,)  # noqa: E731
